@@ -210,6 +210,7 @@ type sim struct {
 	macroRejected  []string
 	posBeforeOp    viewKey // voting position observed before the current op
 	fetchReqs      []fetchReq
+	fetchBusy      bool       // the fetcher's request queue is full (filled by the harness) and is not being read
 	fetchOpen      []fetchReq // requests the harness has not answered with a header (the kernel still waits for them unless it cancelled)
 	futureStored   map[string]bool // rounds for which votes were stored while the round was still in the future
 	realCertificates bool // replays carry certificates consistent with what validators signed before
@@ -348,6 +349,7 @@ func (s *sim) settle(rs ...*callResult) {
 func (s *sim) start(crashAt int) {
 	s.incStartGS, s.incStartSM = len(s.gsRecv), len(s.smRecv)
 	s.fetchReqs, s.fetchOpen = nil, nil // fetch requests die with the process
+	s.fetchBusy = false
 	inc := newIncarnation(s.d)
 	if crashAt > 0 {
 		inc.crashAt = crashAt
@@ -494,6 +496,49 @@ func (s *sim) drain(who int, max int) int {
 	return n
 }
 
+// fetchReqCh is the fetcher's request queue, or nil (never ready) while the fetcher is busy.
+func (s *sim) fetchReqCh() chan tmelink.ProposedHeaderFetchRequest {
+	if s.fetchBusy {
+		return nil
+	}
+	return s.n.fetch.ReqCh
+}
+
+const fetchDummy = "\x00fetcher-busy"
+
+// execFetchBusy: a fetcher has "an upper limit on the number of outstanding fetch requests" (its doc);
+// on = its queue is full of other work and nobody reads it, off = the queue is served again.
+func (s *sim) execFetchBusy(on bool) {
+	if !s.alive || on == s.fetchBusy {
+		return
+	}
+	if on {
+		s.drainAll()
+		for full := false; !full; {
+			select {
+			case s.n.fetch.ReqCh <- tmelink.ProposedHeaderFetchRequest{Ctx: context.Background(), Height: 0, BlockHash: fetchDummy}:
+			default:
+				full = true
+			}
+		}
+		s.fetchBusy = true
+		s.label("fetcher-busy")
+		return
+	}
+	s.fetchBusy = false
+	for empty := false; !empty; {
+		select {
+		case fr := <-s.n.fetch.ReqCh:
+			if fr.BlockHash != fetchDummy {
+				s.fetchReqs = append(s.fetchReqs, fetchReq{H: fr.Height, Hash: fr.BlockHash, Ctx: fr.Ctx, Step: s.step})
+				s.fetchOpen = append(s.fetchOpen, fetchReq{H: fr.Height, Hash: fr.BlockHash, Ctx: fr.Ctx, Step: s.step})
+			}
+		default:
+			empty = true
+		}
+	}
+}
+
 func (s *sim) drainAll() {
 	// lag channel is always drained (driver side; not under test here)
 	for {
@@ -505,7 +550,7 @@ func (s *sim) drainAll() {
 		default:
 		}
 		select {
-		case fr := <-s.n.fetch.ReqCh:
+		case fr := <-s.fetchReqCh():
 			s.fetchReqs = append(s.fetchReqs, fetchReq{H: fr.Height, Hash: fr.BlockHash, Ctx: fr.Ctx, Step: s.step})
 			s.fetchOpen = append(s.fetchOpen, fetchReq{H: fr.Height, Hash: fr.BlockHash, Ctx: fr.Ctx, Step: s.step})
 			s.label("fetch-requested")
@@ -708,6 +753,8 @@ func (s *sim) exec(op Op) {
 		s.execRestart(op)
 	case "fetch":
 		s.execFetch(op)
+	case "fbusy":
+		s.execFetchBusy(op.On)
 	case "time":
 		time.Sleep(time.Duration(max(1, op.N)) * 100 * time.Millisecond)
 	default:
